@@ -71,6 +71,21 @@ Fixpoint protocol (t : mtree) (prev : option (path -> text)) (maxv : path -> N)
     protocol t (if cancelled r then prev else Some (r_disk r)) (bump maxv r) h'
   end.
 
+(* what the editor alone guarantees, whether or not compilations are cancelled: consecutive
+   requests differ only in the file of the later one *)
+Fixpoint editor_seq (t : mtree) (prev : option (path -> text)) (maxv : path -> N)
+         (h : list request) : Prop :=
+  match h with
+  | [] => True
+  | r :: h' =>
+    r_tree r = t /\
+    (forall v, r_version r = Some v ->
+       N.lt (maxv (r_uri r)) v /\ In (r_uri r) (r_open r) /\ In (r_uri r) (tpaths t)) /\
+    (forall d, prev = Some d -> forall p, In p (tpaths t) -> r_disk r p <> d p ->
+       p = r_uri r /\ r_version r <> None) /\
+    editor_seq t (Some (r_disk r)) (bump maxv r) h'
+  end.
+
 (* the texts of the last request that was compiled to completion *)
 Fixpoint last_done (prev : option (path -> text)) (h : list request) : option (path -> text) :=
   match h with
